@@ -583,10 +583,13 @@ def ident(n):
     return n + "_" if n in KEYWORDS else n
 
 class Lower:
-    def __init__(self, generated, self_field=False):
+    def __init__(self, generated, self_field=False, static_fn=False, rename=None):
         self.n = 0
         self.generated = generated      # names of Repr functions that are translated (callers wrap them in `call`)
         self.self_field = self_field    # lib.rs: the Repr is `self.0`
+        self.static_fn = static_fn      # no `self` receiver: an owned local `LeanString` becomes the state's `self`
+        self.owned = None               # name of that local
+        self.rename = rename or {}      # method names resolved by type in Rust (`extend` on different item types)
 
     def fresh(self):
         self.n += 1
@@ -612,7 +615,7 @@ class Lower:
             if len(p) == 1:
                 if p[0] == "None":
                     return k("none")
-                if p[0] == "self":
+                if p[0] == "self" or (self.owned and p[0] == self.owned):
                     return self.bindc("Repr.read_self", k, ind)
                 return k(ident(p[0]))
             if p == ["isize", "MAX"]:
@@ -689,9 +692,9 @@ class Lower:
                 head = f"Repr.{name}"
                 wrap = head in self.generated
                 return self.args(args, lambda as_: self.bindc(self.app(head, as_, wrap), k, ind), ind)
-            if self.self_field and recv == ("path", ["self"]):
-                # a method of `LeanString` itself (`self.try_push(ch)`)
-                head = f"LeanString.{name}"
+            if self.self_field and (recv == ("path", ["self"]) or (self.owned and recv == ("path", [self.owned]))):
+                # a method of `LeanString` itself (`self.try_push(ch)`, or of the owned local of a static function)
+                head = f"LeanString.{self.rename.get(name, name)}"
                 wrap = head in self.generated
                 return self.args(args, lambda as_: self.bindc(self.app(head, as_, wrap), k, ind), ind)
             if self.self_field and recv[0] == "field" and recv[2] == "0" and recv[1][0] == "path" and len(recv[1][1]) == 1:
@@ -778,6 +781,17 @@ class Lower:
             s = stmts[i]
             if s[0] == "let":
                 v = ident(s[1])
+                rhs = s[2]
+                if (self.static_fn and self.owned is None and rhs[0] == "call" and rhs[1][0] == "path"
+                        and rhs[1][1] in (["LeanString"], ["LeanString", "new"])):
+                    # `let mut buf = LeanString(repr)` in a function without receiver: `buf` is the value under
+                    # construction -- the state's `self`; Rust drops it when a later call unwinds
+                    def own(a):
+                        self.owned = s[1]
+                        rest = go(i + 1)
+                        pad = "  " * ind
+                        return (f"Rt.bind (Repr.assign {a}) fun _ =>\n{pad}dropOnUnwind (LeanString.drop) (\n{pad}  {rest})")
+                    return self.ex(rhs, own, ind)
                 return self.ex(s[2], lambda a: (f"Rt.bind (Rt.pure {a}) fun {v} =>\n{'  ' * ind}{go(i + 1)}"), ind)
             if s[0] == "lettuple":
                 pat = "(" + ", ".join(ident(n) for n in s[1]) + ")"
@@ -889,6 +903,10 @@ TARGETS = [
     ("lib.rs", "impl<'a> Extend<&'a str> for LeanString", "extend", "LeanString.extend_str", True),
     ("lib.rs", "impl Extend<String> for LeanString", "extend", "LeanString.extend_string", True),
     ("lib.rs", "impl Extend<Box<str>> for LeanString", "extend", "LeanString.extend_box", True),
+    ("lib.rs", "impl LeanString", "new", "LeanString.new", True),
+    ("lib.rs", "impl FromIterator<char> for LeanString", "from_iter", "LeanString.from_iter_char", True),
+    ("lib.rs", "impl<'a> FromIterator<&'a str> for LeanString", "from_iter", "LeanString.from_iter_str", True),
+    ("lib.rs", "impl FromIterator<String> for LeanString", "from_iter", "LeanString.from_iter_string", True),
 ]
 # expected Lean signatures (used for the stub of a poisoned function, and checked against the source)
 SIGS = {
@@ -920,6 +938,15 @@ SIGS = {
     "LeanString.add": ([("rhs", "Str")], "Handle"), "LeanString.from_str_ref": ([("value", "Str")], "Handle"),
     "LeanString.extend_char": ([("iter", "CharIter")], "Unit"), "LeanString.extend_str": ([("iter", "StrIter")], "Unit"),
     "LeanString.extend_string": ([("iter", "StrIter")], "Unit"), "LeanString.extend_box": ([("iter", "StrIter")], "Unit"),
+    "LeanString.new": ([], "Handle"), "LeanString.from_iter_char": ([("iter", "CharIter")], "Handle"),
+    "LeanString.from_iter_str": ([("iter", "StrIter")], "Handle"), "LeanString.from_iter_string": ([("iter", "StrIter")], "Handle"),
+}
+
+# method names that Rust resolves by the argument's type
+RENAMES = {
+    "LeanString.from_iter_char": {"push": "push"},
+    "LeanString.from_iter_str": {"extend": "extend_str"},
+    "LeanString.from_iter_string": {"extend": "extend_string"},
 }
 
 def pick64(variants):
@@ -953,7 +980,8 @@ def translate_one(srcs, cache, file, header, fn, lname, self_field, generated):
         raise Bad(f"signature changed: ({lps}) -> {rt}")
     p = P(body)
     blk = p.block()
-    lo = Lower(generated, self_field)
+    static_fn = not any(v == "self" for _, v in params)
+    lo = Lower(generated, self_field, static_fn, RENAMES.get(lname))
     text = lo.block(blk, lambda a: f"Rt.pure {a}", 1)
     sig = "".join(f" ({n} : {t})" for n, t in lps)
     return f"def {lname}{sig} : M ({rt}) ({rt}) :=\n  {text}\n"
